@@ -31,6 +31,9 @@ import NeoModel.Proofs.DbftProposal
 import NeoModel.Proofs.DbftWitness
 import NeoModel.Proofs.DbftTimed
 import NeoModel.Proofs.DbftSimX
+import NeoModel.Proofs.DbftStuck
+import NeoModel.Proofs.DbftProposalX
+import NeoModel.Proofs.DbftTimedExec
 namespace NeoModel.Dbft
 
 /-! ### 1. Agreement -/
@@ -438,5 +441,75 @@ theorem machine_commit_prepared (e : Mach.Env) (ms : Mach.MNet) (hr : Mach.MReac
 -- hold the block (`Mach.xRun`, evaluated through `Mach.napply`)
 example : ∃ ms, Mach.MReachable Mach.xEnv ms ∧ (ms.nodes 0).chain = [⟨1, 0, 1⟩] ∧ (ms.nodes 1).chain = [⟨1, 0, 1⟩] :=
   Mach.mach_reachable_nonvacuous
+
+/-! ### 9. Second round: the lock for every n, the backup's checks exactly, the synchronous round as a timed run -/
+
+/-- C19 (no liveness from a stuck height; every n, every schedule): if in a reachable state every validator works on
+height `h` and NO view of it can gather M participants — a validator can take part in view `v` iff it signed in exactly
+`v`, or has not signed and is in a view `≤ v` — then no schedule whatsoever ever puts a block of height `h` on any ledger.
+This is the general form of the dBFT 2.0 liveness lock (`liveness_lock_witness` is the instance `lock_is_stuck`), and
+the criterion by which the harness classifies a stall as `dbft20-liveness-lock` (sched.go stallKey). Equivalently: a
+height can only be decided from states in which some view still has M participants. -/
+theorem liveness_impossible_when_stuck (c : Cfg) (s : State) (h : Nat) (hr : Reachable c s) (l : Stuck c s h)
+    (as : List Action) (s' : State) (hrun : run c s as = some s') :
+    Stuck c s' h ∧ ∀ i, i < c.n → (s'.nodes i).height = h ∧ ∀ b ∈ (s'.nodes i).chain, b.h < h :=
+  stuck_forever c s h hr l as s' hrun
+
+-- non-vacuity: the state reached by `lockSched` (4 honest validators) is stuck at height 1
+example : ∃ s, run cfg4 init lockSched = some s ∧ Stuck cfg4 s 1 := by
+  have h : (match run cfg4 init lockSched with | some s => decide (Lock s) | none => false) = true := by decide
+  cases hr : run cfg4 init lockSched with
+  | none => rw [hr] at h; cases h
+  | some s =>
+    rw [hr] at h
+    have hl : Lock s := by simpa using h
+    exact ⟨s, rfl, lock_is_stuck s (inv_reachable cfg4 s (run_reachable cfg4 init lockSched s Reachable.init hr)) hl⟩
+
+/-- C19 (the backup's checks against the ledger's, exact; replaces the observation behind
+`conflicting_proposal_accepted_by_backup`): for a PrepareRequest a backup answers, AddBlock (verification on) on any node
+with the backup's ledger accepts the assembled block iff no scratch-pool addition evicts an earlier transaction of the
+proposal, and otherwise rejects it with the transaction-loop error — the eviction count (`mp.Count() != added`) is the
+one and only check of AddBlock that `verifyBlock` lacks. -/
+theorem backup_vs_ledger_exact {L : Type} (env : AddBlock.Env L) (s t' : AddBlock.Node L) (lim : Proposal.Limits)
+    (top : AddBlock.Header) (lastTs : Nat) (r : Proposal.Req) (hash nc wit primary : Nat) (hprim : primary < env.nvals)
+    (hacc : Proposal.backupAccepts env s lim top lastTs r = true) (hpv : Proposal.PoolValid env s)
+    (hown : ∀ t ∈ r.txs, ∀ q ∈ s.pool, q.id = t.id → q = t)
+    (hne : s.headers ≠ []) (hhh : s.headerHeight = s.blockHeight)
+    (hlook : s.lookup top.hash = some top) (htopi : top.index = s.blockHeight) (hlast : top.ts ≤ lastTs)
+    (hsig : env.signedBy wit hash top.nextConsensus = true)
+    (happly : (env.apply s.ledger (Proposal.blockOf env s top r hash nc wit primary)).isSome)
+    (hc : t'.cfg = s.cfg) (hl : t'.ledger = s.ledger) (hb : t'.blockHeight = s.blockHeight)
+    (hh : t'.headers = s.headers) (hver : s.cfg.verifyTx = true) (hskip : s.cfg.skip = false) :
+    (AddBlock.addBlock env t' (Proposal.blockOf env s top r hash nc wit primary)).2 =
+      if Proposal.noEvict (env.balance s.ledger) [] r.txs then none else some AddBlock.Err.tx :=
+  Proposal.answered_proposal_exact env s t' lim top lastTs r hash nc wit primary hprim hacc hpv hown hne hhh hlook htopi
+    hlast hsig happly hc hl hb hh hver hskip
+
+/-- C19 (liveness under synchrony as a timed execution, one height, every n): from a clean state whose clocks are
+`ClocksOk` for the previous proposal time `P0`, with hop delays `d1 d2 d3 ≤ δ`, `4δ < TimePerBlock`: the steps of the
+synchronous round are enabled one after the other (untimed model), and with the instants of `Timed.timedRound` they form a
+timed run — time monotone, no validator's timer overdue at any step, the only timeout the primary's at exactly its
+deadline `P1 = lastBlockTime + TimePerBlock ∈ [P0+tpb, P0+tpb+δ]`; afterwards every ledger has the block, the state is
+clean at `h+1` and the clocks are `ClocksOk` for `P1`: the theorem applies again. -/
+theorem liveness_sync_round_timed_exec (c : Cfg) (hn : 0 < c.n) (s : State) (h p : Nat) (hc : Clean c s h)
+    (hprop : c.propose (c.primary h 0) ⟨h, 0, p⟩ = true) (hver : ∀ j, c.verify j ⟨h, 0, p⟩ = true)
+    (tpb δ P0 d1 d2 d3 : Nat) (hδ : 4 * δ < tpb) (h1 : d1 ≤ δ) (h2 : d2 ≤ δ) (h3 : d3 ≤ δ) (ts : Timed.TS)
+    (hok : Timed.ClocksOk c tpb δ P0 (c.primary h 0) ts) :
+    let P1 := ts.lb (c.primary h 0) + tpb
+    let sched := Timed.timedRound c h p P1 (P1 + d1) (P1 + d1 + d2) (P1 + d1 + d2 + d3)
+    ∃ s' ts', run c s (sched.map (·.1)) = some s' ∧ Timed.TRun c tpb h ts sched ts' ∧
+      Clean c s' (h + 1) ∧ (∀ i, i < c.n → (s'.nodes i).chain = ⟨h, 0, p⟩ :: (s.nodes i).chain) ∧
+      P0 + tpb ≤ P1 ∧ P1 ≤ P0 + tpb + δ ∧ Timed.ClocksOk c tpb δ P1 (c.primary (h + 1) 0) ts' := by
+  intro P1 sched
+  obtain ⟨s', hrun, hclean, _, hch⟩ := liveness_sync_round c hn s h p hc hprop hver
+  obtain ⟨ts', htr, ha, hb, hck⟩ := Timed.sync_round_timed_exec c hn tpb δ P0 h p d1 d2 d3 hδ h1 h2 h3 ts hok
+  exact ⟨s', ts', by rw [Timed.timedRound_steps]; exact hrun, htr, hclean, hch, ha, hb, hck⟩
+
+-- non-vacuity: TimePerBlock 15 s, δ = 1 s, previous proposal at 100 s; 4 validators, height 5 (primary 1)
+example : Timed.ClocksOk { n := 4 } 15 1 100 1
+    { now := 103, lb := fun k => if k = 1 then 100 else 101, dl := fun k => if k = 1 then 115 else 131 } := by
+  refine ⟨by decide, fun k hk => ?_⟩
+  have : k = 0 ∨ k = 1 ∨ k = 2 ∨ k = 3 := by simp at hk; omega
+  rcases this with rfl | rfl | rfl | rfl <;> decide
 
 end NeoModel.Dbft
